@@ -136,17 +136,17 @@ type task struct {
 }
 
 type Pool struct {
-	P       *Program
-	cfg     Config
-	mu      sync.Mutex
-	cond    *sync.Cond
-	stack   []task
-	active  int
-	closed  bool
-	workers []*Worker
-	SolverQ map[string]int
-	SolverS map[string]float64
-	SolverU map[string]int
+	P          *Program
+	cfg        Config
+	mu         sync.Mutex
+	cond       *sync.Cond
+	stack      []task
+	active     int
+	closed     bool
+	workers    []*Worker
+	SolverQ    map[string]int
+	SolverS    map[string]float64
+	SolverU    map[string]int
 	violations int
 	abort      bool
 }
